@@ -523,10 +523,12 @@ void ICACHE_FLASH_ATTR supla_esp_mqtt_conn_on_connect(void *arg) {
   supla_esp_mqtt_prepare_topic(&will_topic, "state/connected");
 
   char *username = NULL;
+  char *password_ptr = NULL;
   char password[300];
 
   if (!(supla_esp_cfg.Flags & CFG_FLAG_MQTT_NO_AUTH)) {
     username = supla_esp_cfg.Username;
+    password_ptr = password;
     int passwordLen =
         strnlen(supla_esp_cfg.Password, SUPLA_LOCATION_PWD_MAXSIZE);
     memcpy(password, supla_esp_cfg.Password, passwordLen);
@@ -548,7 +550,7 @@ void ICACHE_FLASH_ATTR supla_esp_mqtt_conn_on_connect(void *arg) {
   }
 
   if (MQTT_OK == mqtt_connect(&supla_esp_mqtt_vars->client, clientId,
-                              will_topic, "false", 5, username, password,
+                              will_topic, "false", 5, username, password_ptr,
                               MQTT_CONNECT_CLEAN_SESSION,
                               MQTT_KEEP_ALIVE_SEC)) {
     supla_esp_gpio_state_connected();
